@@ -6,6 +6,7 @@ import vlib
 
 def run(ctx):
     recs = ofcorpus.run_families(ctx, "C06", ofcorpus.FAMS.get("C06"))
+    recs += ofcorpus.run_packets(ctx, "C06")
     viol, known = ofcorpus.settle(ctx, "C06", recs)
     return vlib.finish(ctx, "model_checking", ofcorpus.RULES["C06"] + ofcorpus.corpus_text(ctx), viol, known,
                        ofcorpus.ASSUME, exhaustive=False)
